@@ -425,9 +425,9 @@ fn check_prot(c: &ProtCase, obs: &mut Obs) -> Verdict {
 
 fn subs() -> Vec<Box<dyn DynSub>> {
     vec![
-        Box::new(Sub { name: "sheet", strategy: sheet_cases, cases: (20, 300), check: check_prot, max_shrink_iters: 60 }),
-        Box::new(Sub { name: "workbook", strategy: workbook_cases, cases: (20, 300), check: check_prot, max_shrink_iters: 60 }),
-        Box::new(Sub { name: "revisions", strategy: revisions_cases, cases: (20, 300), check: check_prot, max_shrink_iters: 60 }),
+        Box::new(Sub { name: "sheet", strategy: sheet_cases, cases: (20, 300), check: check_prot, max_shrink_iters: 32 }),
+        Box::new(Sub { name: "workbook", strategy: workbook_cases, cases: (20, 300), check: check_prot, max_shrink_iters: 32 }),
+        Box::new(Sub { name: "revisions", strategy: revisions_cases, cases: (20, 300), check: check_prot, max_shrink_iters: 32 }),
     ]
 }
 
